@@ -20,6 +20,12 @@ def main():
         from harness.inject import Unavailable
         from harness.record import Recorder
 
+        if hasattr(ad, "record_custom"):       # no environment to drive: the adapter writes its own events
+            meta = ad.record_custom(cfg, tier, int(seed), out)
+            meta["wall"] = round(time.time() - t0, 2)
+            print(json.dumps(meta))
+            return
+
         try:
             rec = Recorder(ad, cfg, tier, int(seed), with_leaves=bool(int(wl))).run()
         except Unavailable as e:
